@@ -567,6 +567,9 @@ func (comp) Gen(r *kit.Rng, maxLen int, tier string) kit.Case {
 	if r.Chance(40) {
 		prof = "fwd"
 	}
+	if r.Chance(15) {
+		return genQueueCase(r)
+	}
 	c := genCfg(r, prof)
 	n := 4 + r.Intn(maxLen)
 	var ops []string
@@ -575,6 +578,107 @@ func (comp) Gen(r *kit.Rng, maxLen int, tier string) kit.Case {
 	}
 	h := fmt.Sprintf("prof=%s tn=%s pn=%s sk=%s ua=%s", prof, encList(c.tn), encList(c.pn), encList(c.sk), kit.Enc(c.ua))
 	return kit.Case{Header: h, Ops: ops}
+}
+
+// sameSize returns a value of the same shape and encoded size with other contents: a later
+// request built from it fills a recycled body buffer byte for byte like the earlier one.
+func sameSize(n node) node {
+	switch n.t {
+	case 's', 'b':
+		b := []byte(n.s)
+		for i := range b {
+			switch {
+			case b[i] >= 'a' && b[i] < 'z', b[i] >= 'A' && b[i] < 'Z', b[i] >= '0' && b[i] < '9':
+				b[i]++
+			case b[i] == 'z', b[i] == 'Z':
+				b[i] -= 25
+			case b[i] == '9':
+				b[i] = '0'
+			}
+		}
+		n.s = string(b)
+	case 'i':
+		if n.i > 0 && n.i < 127 || n.i > 128 && n.i < 30000 {
+			n.i--
+		} else if n.i == 0 {
+			n.i = 1
+		}
+	case 'u':
+		if n.u > 0 && n.u != 128 && n.u != 256 && n.u != 65536 {
+			n.u--
+		}
+	case 'd', 'f':
+		if n.num == "" {
+			n.bits ^= 1
+		}
+	case 'T':
+		n.t = 'F'
+	case 'F':
+		n.t = 'T'
+	case 't':
+		if n.nsec > 0 {
+			n.nsec--
+		}
+	case 'a':
+		arr := make([]node, len(n.arr))
+		for i, c := range n.arr {
+			arr[i] = sameSize(c)
+		}
+		n.arr = arr
+	case 'm':
+		vals := make([]node, len(n.vals))
+		for i, c := range n.vals {
+			vals[i] = sameSize(c)
+		}
+		n.vals = vals
+	}
+	return n
+}
+
+// genQueueCase: events stay queued (`post`) while 1-20 further requests of the same and of other
+// body sizes go through the same handlers in the same goroutine (so the pooled HTTP body buffer is
+// really handed back and reused); only then the queued events are re-encoded (`outq`).
+func genQueueCase(r *kit.Rng) kit.Case {
+	c := genCfg(r, "fwd")
+	var ops []string
+	type heldEv struct {
+		id, path string
+		fs       []field
+	}
+	var held []heldEv
+	for i, n := 0, 1+r.Intn(3); i < n; i++ {
+		path := []string{"mp", "pr", "jb", "om"}[r.Pick(60, 20, 15, 5)]
+		fs := genFields(r, c, "fwd", path)
+		id := "q" + strconv.Itoa(i)
+		held = append(held, heldEv{id, path, fs})
+		ops = append(ops, "post "+id+" "+evOp(path, fs)[3:], "out")
+	}
+	for i, n := 0, 1+r.Intn(20); i < n; i++ {
+		h := held[r.Intn(len(held))]
+		switch r.Pick(45, 35, 20) {
+		case 0: // same framing, same shape, same size, other values
+			fs := make([]field, len(h.fs))
+			for j, f := range h.fs {
+				fs[j] = field{f.k, sameSize(f.v)}
+			}
+			path := h.path
+			if path == "om" {
+				path = "mp"
+			}
+			ops = append(ops, evOp(path, fs))
+		case 1:
+			path := []string{"mp", "pr", "jb", "js"}[r.Pick(45, 15, 25, 15)]
+			ops = append(ops, evOp(path, genFields(r, c, "fwd", path)))
+		default: // a small body: only the head of the buffer is rewritten
+			path := []string{"mp", "jb"}[r.Intn(2)]
+			ops = append(ops, evOp(path, []field{{mkey{s: "k"}, str(pickStr(r, []string{"v", "", "0123456789"}))}}))
+		}
+	}
+	for _, h := range held {
+		ops = append(ops, "outq "+h.id)
+	}
+	hd := fmt.Sprintf("prof=queue tn=%s pn=%s sk=%s ua=%s", encList(c.tn), encList(c.pn), encList(c.sk), kit.Enc(c.ua))
+	return kit.Case{Header: hd, Ops: ops}
 }
 
 // ---------------------------------------------------------------- recording collector / transmission
@@ -615,11 +719,13 @@ type runner struct {
 	up, ptx   *fakeTx
 	inc, peer *route.Router
 	cur       *types.Payload
+	held      map[string]*types.Payload // events a node keeps queued across later requests (`post`)
 	metaTbl   map[string]string
 }
 
 func (comp) NewCase(h []string) kit.Runner {
-	r := &runner{sk: decList(kit.KV(h, "sk")), ua: kit.Dec(kit.KV(h, "ua")), metaTbl: types.VerifPayloadMetaTable()}
+	r := &runner{sk: decList(kit.KV(h, "sk")), ua: kit.Dec(kit.KV(h, "ua")), metaTbl: types.VerifPayloadMetaTable(),
+		held: map[string]*types.Payload{}}
 	r.cfg = &config.MockConfig{
 		TraceIdFieldNames:  decList(kit.KV(h, "tn")),
 		ParentIdFieldNames: decList(kit.KV(h, "pn")),
@@ -715,6 +821,8 @@ func (r *runner) ingest(path string, fs []field) (string, *types.Payload) {
 	switch path {
 	case "mp":
 		return r.batchOutcome(r.inc, msgpBatch(data.msgp(nil)), "application/msgpack")
+	case "pr": // peer traffic: the same handler on the peer-type router
+		return r.batchOutcome(r.peer, msgpBatch(data.msgp(nil)), "application/msgpack")
 	case "jb":
 		var sb strings.Builder
 		sb.WriteString(`[{"time":"2023-12-31T00:00:00Z","samplerate":1,"data":`)
@@ -774,6 +882,37 @@ const jsRuns = 4
 
 func (r *runner) Do(op []string) (string, bool) {
 	switch op[0] {
+	case "post":
+		// `post <id> <path> <n> …` = `ev`, and the event stays queued under <id> (the recording
+		// collector / transmission keeps the *types.Event, as the real ones do until the trace is
+		// decided resp. the batch is sent), while later requests go through the same handlers.
+		if len(op) < 4 {
+			return "bad-op", true
+		}
+		obs, has := r.Do(append([]string{"ev"}, op[2:]...))
+		if r.cur != nil {
+			r.held[op[1]] = r.cur
+		} else {
+			delete(r.held, op[1])
+		}
+		return obs, has
+	case "outq":
+		if len(op) != 2 {
+			return "bad-op", true
+		}
+		p := r.held[op[1]]
+		if p == nil {
+			return "nopayload", true
+		}
+		b, err := p.MarshalMsg(nil)
+		if err != nil {
+			return "err", true
+		}
+		n, err := decodeMsgp(b)
+		if err != nil || n.t != 'm' {
+			return "undecodable", true
+		}
+		return n.canon(), true
 	case "ev":
 		if len(op) < 3 {
 			return "bad-op", true
